@@ -666,13 +666,13 @@ def op_initial_boxes(seed):
     return [
         {"a": RS.from_rows(C.Q, OQ, [(v(0),), (v(1),), (NAN,), (v(2),)], "A0"),
          "b": RS.from_rows(C.Q, OQ + 2, [(v(3), v(4)), (NAN, v(5)), (v(6), v(7))], "B0"),
-         "c": 3.0},
+         "c": 3.0, "ab": 7.5},
         {"a": RS.from_rows(C.Q, OQ + 1, [(v(8), v(9)), (v(10), v(11))], "A1"),
          "b": RS.from_rows(C.M, OM, [(v(12),), (v(13),), (v(14),)], "B1"),
-         "c": [1.0, 2.0]},
+         "c": [1.0, 2.0], "ab": 7.5},
         {"a": RS.from_rows(C.Q, OQ + 3, [(v(15),), (v(16),), (v(17),), (v(18),)], "A2"),
          "b": RS(None, 1, {}, None, "B2 empty"),
-         "c": RS.from_rows(C.Q, OQ - 1, [(v(19),), (v(20),)], "C2")},
+         "c": RS.from_rows(C.Q, OQ - 1, [(v(19),), (v(20),)], "C2"), "ab": 7.5},
     ]
 
 
@@ -715,6 +715,8 @@ def op_alphabet(thorough):
           ("rename", _L("a", "zz"), _L("x1", "x2")), ("rename", ("pred", "is_a_or_b"), ("func", "upper"))]
     A += [("keep", _L("a", "c")), ("keep", _S("b")), ("keep", ("pred", "not_b")), ("keep", _L("a", "zz"))]
     A += [("remove", _S("a")), ("remove", _L("b", "zz")), ("remove", ("pred", "has_x"))]
+    # a single name given as a plain string whose siblings ("a", "b") are substrings of it
+    A += [("keep", _S("ab")), ("remove", _S("ab")), ("copy", _S("ab"), None)]
     A += [("merge", (o,), s) for o in (0, 1) for s in ("stack", "replace", "discard")]
     A += [("shallow", None, None), ("shallow", _L("b", "c"), _L("c", "b")), ("shallow", ("pred", "short"), ("func", "upper"))]
     A += [("or", 0), ("or", 1)]
